@@ -187,7 +187,7 @@ var scripts = [][]rune{
 // oddRunes look like blanks or like nothing but are ordinary data for the parser: no-break space,
 // zero-width space, soft hyphen, combining acute accent, ideographic space. They are only used
 // inside names (the ends of notes are trimmed with Unicode rules by design).
-var oddRunes = []rune("\u00a0\u200b\u00ad\u0301\u3000\ufeff")
+var oddRunes = []rune("\u00a0\u200b\u00ad\u0301\u3000\ufeff\u2026")
 
 // NameOpts selects the alphabet of generated names.
 type NameOpts struct {
@@ -205,6 +205,8 @@ type NameOpts struct {
 	// truncated multi-byte rune, a surrogate half); Names then also adds siblings that differ only in the
 	// invalid byte, or that have a rune above U+FFFD where the sibling has the invalid byte.
 	Invalid bool
+	// EdgeBlanks: one name in eight begins or ends with a Unicode blank that is not in the parser's trim set
+	EdgeBlanks bool
 }
 
 var invalidSeqs = []string{"\xe9", "\xe8", "\xff", "\xf0", "\xc3", "\x80", "\xbd", "\xed\xa0\x80", "\xf4\x90\x80\x80", "\xe2\x82"}
@@ -282,6 +284,16 @@ func Name(r *rand.Rand, o NameOpts) string {
 			rs = append(rs, edge[r.Intn(len(edge))])
 		} else {
 			rs = append(rs, letterOrDigit(r, o))
+		}
+	}
+	if o.EdgeBlanks && r.Intn(8) == 0 {
+		// a blank the parser does not know as one (no-break space from a web page, ideographic space from an input
+		// method, thin space) at the very beginning or end: part of the name, for the parser
+		b := []rune("\u00a0\u3000\u2009\u202f\u0085")[r.Intn(5)]
+		if r.Intn(2) == 0 {
+			rs = append([]rune{b}, rs...)
+		} else {
+			rs = append(rs, b)
 		}
 	}
 	s := string(rs)
@@ -763,9 +775,23 @@ func (s *Style) finish(sb *strings.Builder) string {
 	return out
 }
 
+// leadNote: an indented note line above the first heading of a file (a remark left by an export tool): it belongs
+// to no record and is not data; the records below it are what they are without it.
+func (s *Style) leadNote(sb *strings.Builder) {
+	if s == nil || !s.Comments || s.R == nil || !s.coin(8) {
+		return
+	}
+	ind := s.indent()
+	if s.Dashes && s.coin(4) {
+		ind += "- "
+	}
+	sb.WriteString(ind + s.cc() + []string{" exported from the kitchen spreadsheet", "", " source: an app", " x: 1"}[s.R.Intn(4)] + s.eol())
+}
+
 // RenderBook renders a book.
 func RenderBook(b Book, s *Style) string {
 	var sb strings.Builder
+	s.leadNote(&sb)
 	for _, rec := range b {
 		s.record(&sb, rec.Name, rec.Notes, rec.Ents)
 	}
@@ -776,6 +802,7 @@ func RenderBook(b Book, s *Style) string {
 // RenderLog renders a log with the given date layout.
 func RenderLog(l Log, layout string, s *Style) string {
 	var sb strings.Builder
+	s.leadNote(&sb)
 	for _, d := range l {
 		head := d.Date.Format(layout)
 		if d.Head != "" {
